@@ -666,8 +666,161 @@ def _run_program(roots, raise_in_body=False):
     return problems, counter[0], nobs[0]
 
 
+class _PlainCM(object):
+    def __init__(s, tag):
+        s.tag = tag
+
+    def __enter__(s):
+        return s
+
+    def __exit__(s, *exc):
+        return False
+
+    async def __aenter__(s):
+        return s
+
+    async def __aexit__(s, *exc):
+        return False
+
+
+SHARED_SHAPES = ("two-owners", "three-owners", "owner-and-direct", "two-levels", "two-withs")
+
+
+def shared_cases():
+    for is_async in (False, True):
+        for k in (0, 1, 2, 3):
+            for shape in SHARED_SHAPES:
+                yield {"leg": "shared", "async": is_async, "k": k, "shape": shape}
+
+
+def check_shared(case):
+    """One exit stack object registered at SEVERAL places of the same context tree (a pool of shared resources entered
+    into two owner stacks): every occurrence has exactly one child per registered callback, unfolded recursively."""
+    import stackscope
+    is_async, k, shape = case["async"], case["k"], case["shape"]
+    ES = AsyncExitStack if is_async else ExitStack
+    regs = {}
+
+    problems = []
+    keep = []
+
+    async def build_async(shared):
+        async def owner(*members):
+            st = AsyncExitStack()
+            regs[id(st)] = list(members)
+            for m in members:
+                await st.enter_async_context(m)
+            return st
+        if shape == "two-owners":
+            return [await owner(await owner(shared), await owner(shared))]
+        if shape == "three-owners":
+            return [await owner(await owner(shared), await owner(shared), await owner(shared))]
+        if shape == "owner-and-direct":
+            return [await owner(await owner(shared), shared)]
+        if shape == "two-levels":
+            return [await owner(await owner(await owner(shared)), await owner(shared))]
+        return [await owner(shared), await owner(shared)]
+
+    def build_sync(shared):
+        def owner(*members):
+            st = ExitStack()
+            regs[id(st)] = list(members)
+            for m in members:
+                st.enter_context(m)
+            return st
+        if shape == "two-owners":
+            return [owner(owner(shared), owner(shared))]
+        if shape == "three-owners":
+            return [owner(owner(shared), owner(shared), owner(shared))]
+        if shape == "owner-and-direct":
+            return [owner(owner(shared), shared)]
+        if shape == "two-levels":
+            return [owner(owner(owner(shared)), owner(shared))]
+        return [owner(shared), owner(shared)]
+
+    def sbody():
+        shared = ExitStack()
+        regs[id(shared)] = []
+        for i in range(k):
+            m = _PlainCM("m%d" % i)
+            regs[id(shared)].append(m)
+            shared.enter_context(m)
+        tops = build_sync(shared)
+        keep.append(tops)
+        if len(tops) == 1:
+            with tops[0]:
+                yield "body"
+        else:
+            with tops[0]:
+                with tops[1]:
+                    yield "body"
+
+    if is_async:
+        async def prog():
+            shared = AsyncExitStack()
+            regs[id(shared)] = []
+            for i in range(k):
+                m = _PlainCM("m%d" % i)
+                regs[id(shared)].append(m)
+                await shared.enter_async_context(m)
+            tops = await build_async(shared)
+            keep.append(tops)
+            if len(tops) == 1:
+                async with tops[0]:
+                    await trap("body")
+            else:
+                async with tops[0]:
+                    async with tops[1]:
+                        await trap("body")
+        target = prog()
+        target.send(None)
+    else:
+        target = sbody()
+        next(target)
+    count = [0]
+
+    def compare(ctx, obj, path):
+        count[0] += 1
+        if ctx.obj is not obj:
+            problems.append("%s: obj is %r, expected %r" % (path, ctx.obj, obj))
+            return
+        if id(obj) in regs:
+            exp = regs[id(obj)]
+            kids = [c for c in ctx.children]
+            if len(kids) != len(exp):
+                problems.append("%s: exit stack with %d registered callbacks has %d children" % (path, len(exp), len(kids)))
+                return
+            for i, (c, m) in enumerate(zip(kids, exp)):
+                compare(c, m, path + "/%d" % i)
+        elif ctx.children:
+            problems.append("%s: plain manager with children" % path)
+    try:
+        with warnings.catch_warnings():
+            warnings.simplefilter("ignore")
+            st = stackscope.extract(target)
+        if st.error is not None:
+            problems.append("error %r" % (st.error,))
+        ctxs = st.frames[0].contexts if st.frames else []
+        tops = keep[0]
+        if len(ctxs) != len(tops):
+            problems.append("frame has %d contexts, expected %d" % (len(ctxs), len(tops)))
+        else:
+            for i, (c, t) in enumerate(zip(ctxs, tops)):
+                compare(c, t, "ctx%d" % i)
+    finally:
+        target.close()
+    return problems, count[0]
+
+
 def run(ctx):
     idx = 0
+    for case in shared_cases():
+        problems, n = check_shared(case)
+        ctx.count("evaluations", n)
+        ctx.count("distinct_nontrivial")
+        ctx.count("shared_stack_cases")
+        if problems:
+            ctx.violation(case, "; ".join(problems)[:1500], "shared")
     for roots in programs(ctx.tier):
         idx += 1
         if not ctx.mine(idx):
@@ -697,5 +850,7 @@ def totuple(x):
 
 
 def replay(case):
+    if case.get("leg") == "shared":
+        return [{"detail": p} for p in check_shared(case)[0]]
     problems, n, nobs = run_program(totuple(case["roots"]), case.get("raise_in_body", False), case.get("referents", False))
     return [{"detail": p} for p in problems]
